@@ -66,7 +66,8 @@ ScanRetOK(p, got) ==         \* got: [code, rows : Seq([k, cols])]
   \* a row that is not returned was absent at some instant of the scan (if it lies in the requested set)
   /\ LET wanted == Denot(ops[p].rs, (DOMAIN scans[p].base) \cup {w[1] : w \in scans[p].writes})
          gotKeys == {got.rows[i].k : i \in 1..Len(got.rows)}
-     IN \A k \in wanted \ gotKeys : NoRow \in Versions(p, k)
+     IN /\ \A k \in wanted \ gotKeys : NoRow \in Versions(p, k)
+        /\ gotKeys \subseteq wanted               \* and nothing outside the requested set is returned
 
 RespMatches(p, got) ==
   LET ev == ops[p].ev  x == exp[p] IN
